@@ -23,7 +23,7 @@ def main():
         n += 1
         own += prop in det
         shown = ', '.join(f"**{p}**" if p == prop else p for p in det) or 'MISSED'
-        hist = 'yes' if any('MISSED' in h or 'added' in h or 'reordered' in h for h in meta.get('history', [])) else ''
+        hist = 'yes' if any(not h.startswith('the checks were run against') for h in meta.get('history', [])) else ''
         print(f"| {sid} | {title.replace('|', '/')} | {shown} | {hist} |")
     print(f"\n{n} changes, {own} detected by the check of the property they were written against")
 
